@@ -553,6 +553,18 @@ fn c11_integral_scaled<const N: usize>(which: u8, scale: f64) {
             let r: Vec<Segment<ITag>> = Segment::integral_iter_ref(segs.iter().filter(|s| s.poly.0 > 0), knot).collect();
             check_chain(&segs, &r, 0, x0, y0);
         }
+        6 | 7 => {
+            // consumed with `nth` instead of `next`/`collect`: the running knot must still be threaded through the skipped pieces
+            let last = if which == 6 { Segment::integral_iter(segs.to_vec(), knot).nth(N - 1).unwrap() } else { Segment::integral_iter_ref(segs.iter(), knot).nth(N - 1).unwrap() };
+            assert!(last.end.to_bits() == segs[N - 1].end.to_bits() && last.poly.id == segs[N - 1].poly.0, "[spec] nth(N-1) is the integral of the last piece");
+            assert!(last.poly.k + (last.poly.id as f64) * unsafe { ISCALE } == y0 && last.poly.trans == 1, "[spec] adjacent pieces agree in value at the breakpoint");
+            unsafe {
+                assert!(ILOG_N >= 2, "[spec] the returned piece was integrated through a knot");
+                let want_x = if N == 1 { x0 } else { segs[N - 2].end };
+                // the last integration logged: anchor evaluation of the returned piece, then the evaluation at its own end for the next knot
+                assert!(ILOG_ID[ILOG_N - 2] == segs[N - 1].poly.0 && ILOG_X[ILOG_N - 2] == want_x.to_bits(), "[spec] the returned piece is anchored at the previous breakpoint (the running knot is threaded through skipped pieces)");
+            }
+        }
         _ => {
             // indefinite(): first piece untranslated (constant 0), the rest chained from (end_0, F_0(end_0))
             let r = Piecewise { segments: segs.to_vec() }.indefinite();
@@ -590,6 +602,8 @@ const TINY: f64 = 8.673617379884035e-19; // 2^-60
 #[kani::proof] #[kani::unwind(6)] fn c11_indefinite_tiny_n3() { c11_integral_scaled::<3>(3, TINY) }
 #[kani::proof] #[kani::unwind(6)] fn c11_iter_filter_n3() { c11_integral::<3>(4) }
 #[kani::proof] #[kani::unwind(6)] fn c11_iter_ref_filter_n3() { c11_integral::<3>(5) }
+#[kani::proof] #[kani::unwind(6)] fn c11_iter_nth_n3() { c11_integral::<3>(6) }
+#[kani::proof] #[kani::unwind(6)] fn c11_iter_ref_nth_n3() { c11_integral::<3>(7) }
 #[kani::proof]
 #[kani::unwind(3)]
 fn c11_empty() {
